@@ -48,6 +48,49 @@ func vhCfgSet(c *config.Config) error {
 	return nil
 }
 
+// vhCfgRepoT stands for the *gogit.Repository of the configuration writer (every
+// `cw.repo.` call is redirected to it): Config reads the repository's own file,
+// ConfigScoped(GlobalScope / SystemScope) reads it merged over the user's global
+// configuration as go-git does, SetConfig writes the repository's own file.
+type vhCfgRepoT struct{}
+
+var vhCfgRepo vhCfgRepoT
+
+// the user's ~/.gitconfig
+var vhGlobalRaw = func() *format.Config {
+	g := format.New()
+	g.Section("user").SetOption("email", "global@example.org")
+	g.Section("init").SetOption("defaultBranch", "trunk")
+	g.Section("url").Subsection("ssh://git@example.org/").SetOption("insteadOf", "https://example.org/")
+	return g
+}()
+
+func (vhCfgRepoT) Config() (*config.Config, error) { return vhCfgGet() }
+
+func (vhCfgRepoT) SetConfig(c *config.Config) error { return vhCfgSet(c) }
+
+func (vhCfgRepoT) ConfigScoped(scope config.Scope) (*config.Config, error) {
+	c, _ := vhCfgGet()
+	if scope == config.LocalScope {
+		return c, nil
+	}
+	merged := vhCloneRaw(vhGlobalRaw)
+	for _, s := range c.Raw.Sections {
+		ns := merged.Section(s.Name)
+		for _, o := range s.Options {
+			ns.SetOption(o.Key, o.Value)
+		}
+		for _, ss := range s.Subsections {
+			nss := ns.Subsection(ss.Name)
+			for _, o := range ss.Options {
+				nss.SetOption(o.Key, o.Value)
+			}
+		}
+	}
+	c.Raw = merged
+	return c, nil
+}
+
 type vhCfgKey struct {
 	key string
 	val string
